@@ -399,7 +399,11 @@ func c09set(s Swamp, key string, v int64) treasure.TreasureStatus {
 func VerifC09Linear(h *verifrt.H) {
 	h.BackgroundLowPriority(true)
 	var s Swamp
-	switch h.Choose("swampMode", h.Param("modes", 3)) {
+	mode := h.Param("onlyMode", -1)
+	if mode < 0 {
+		mode = h.Choose("swampMode", h.Param("modes", 3))
+	}
+	switch mode {
 	case 0:
 		s = vfMem(h, nil)
 	case 1:
@@ -408,7 +412,7 @@ func VerifC09Linear(h *verifrt.H) {
 		s = vfPersist(h, h.TempDir()+"/sw", 0, nil)
 	}
 	v0 := int64(0)
-	if h.Choose("keyExistsBefore", 2) == 1 {
+	if h.Param("keyExists", -1) == 1 || h.Param("keyExists", -1) < 0 && h.Choose("keyExistsBefore", 2) == 1 {
 		v0 = h.Int64("initial")
 		c09set(s, "k", v0)
 	}
@@ -453,9 +457,93 @@ func VerifC09Linear(h *verifrt.H) {
 			h.Assert(final == v0+dA+dB, "no-increment-lost")
 			h.Assert(aThenB || bThenA, "outcome-equals-a-serial-order")
 		}
+		if mode != 0 {
+			// acknowledged writes are also durable: close, summon again from the file
+			s.Close()
+			r := vfPersist(h, h.TempDir()+"/sw", time.Second, nil)
+			rt, rerr := r.GetTreasure("k")
+			h.Assert(rerr == nil, "key-present-after-reload")
+			if rerr == nil {
+				rv, _ := rt.GetContentInt64()
+				h.Assert(rv == final, "acknowledged-value-survives-close-and-reload")
+			}
+		}
 		h.Cover("end")
 	})
 }
 
+// VerifC09LinearImmediate: the immediate-write configuration alone (higher preemption bound).
+func VerifC09LinearImmediate(h *verifrt.H) { VerifC09Linear(h) }
+
 // VerifC09LinearMem: the in-memory configuration alone (explored with a higher preemption bound).
 func VerifC09LinearMem(h *verifrt.H) { VerifC09Linear(h) }
+
+// ---------- C10 ----------
+
+// VerifC10Race: one reader and one writer work concurrently on the same in-memory swamp; the
+// engine's happens-before race detector watches every load/store of shared memory. Scenarios:
+// full listing (GetAll + iteration) vs insert; cold index build vs insert; record read (value +
+// metadata getters) vs update of the same record; ordered index page + iteration vs delete.
+// Besides races: no panic, and the reader sees value and updated-at of ONE committed version.
+func VerifC10Race(h *verifrt.H) {
+	h.BackgroundLowPriority(true)
+	s := vfMem(h, nil)
+	c07put(s, c07rec{key: "a", created: 1, modified: 10, val: 10})
+	c07put(s, c07rec{key: "b", created: 2, modified: 20, val: 20})
+	scenario := h.Choose("scenario", h.Param("scenarios", 4))
+	if scenario == 3 {
+		s.GetTreasuresByBeacon(BeaconTypeKey, IndexOrderAsc, 0, 0, nil, nil) // index already built
+	}
+	h.Go("reader", func() {
+		s.BeginVigil()
+		defer s.CeaseVigil()
+		switch scenario {
+		case 0:
+			h.Known("C10-getall-returns-internal-map", "race", true)
+			n := 0
+			for _, t := range s.GetAll() {
+				_ = t.GetKey()
+				n++
+			}
+			h.Assert(n == 2 || n == 3, "listing-size")
+		case 1:
+			h.Known("C10-cold-index-build-iterates-internal-map", "race", true)
+			got, err := s.GetTreasuresByBeacon(BeaconTypeCreationTime, IndexOrderAsc, 0, 0, nil, nil)
+			h.Assert(err == nil && (len(got) == 2 || len(got) == 3), "cold-index-read")
+		case 2:
+			h.Known("C10-treasure-setters-unlocked", "race", true)
+			t, err := s.GetTreasure("a")
+			h.Assert(err == nil, "read-record")
+			v, _ := t.GetContentInt64()
+			m := t.GetModifiedAt()
+			h.Known("C10-treasure-setters-unlocked", "read-sees", true)
+			h.Assert(v == 10 && m == 10 || v == 11 && m == 11, "read-sees-one-committed-version")
+		case 3:
+			page, err := s.GetTreasuresByBeacon(BeaconTypeKey, IndexOrderAsc, 0, 0, nil, nil)
+			h.Assert(err == nil, "page-read")
+			for i, t := range page {
+				for j := 0; j < i; j++ {
+					h.Assert(page[j].GetKey() != t.GetKey(), "page-has-no-duplicates")
+				}
+			}
+		}
+	})
+	h.Go("writer", func() {
+		s.BeginVigil()
+		defer s.CeaseVigil()
+		switch scenario {
+		case 0, 1:
+			c07put(s, c07rec{key: "c", created: 3, modified: 30, val: 30})
+		case 2:
+			t := s.CreateTreasure("a")
+			g := t.StartTreasureGuard(true)
+			t.SetContentInt64(g, 11)
+			t.SetModifiedAt(g, time.Unix(0, 11).UTC())
+			t.Save(g)
+			t.ReleaseTreasureGuard(g)
+		case 3:
+			_ = s.DeleteTreasure("a", false)
+		}
+	})
+	h.AtQuiescence(func() { h.Cover("end") })
+}
